@@ -169,6 +169,11 @@ def main():
             res.failure("shape", "result shape %r != (%d,%d)" % (out.shape, dim, len(ss)),
                         {"routine": routine, "nodes": C.jfr(nodes), "params": C.jfr(ss), "regime": regime, "layout": lay})
             continue
+        if not np.all(np.isfinite(out)):
+            res.failure("eval-wrong", "%s degree %d: non-finite value in the result for finite nodes and parameters (%s parameter vector): %s" %
+                        (routine, n, lay, out.tolist()[:2]),
+                        {"routine": routine, "nodes": C.jfr(nodes), "params": C.jfr(ss), "regime": regime, "layout": lay})
+            continue
         for r in range(dim):
             for c, s in enumerate(ss):
                 got = Fr(float(out[r, c]))
